@@ -455,6 +455,8 @@ pub fn format_table_constructor(
     table_constructor: &TableConstructor,
     shape: Shape,
 ) -> TableConstructor {
+    #[cfg(feature = "verif-hooks")]
+    crate::verif_hooks::tick();
     const BRACE_LEN: usize = "{".len();
 
     let (start_brace, end_brace) = table_constructor.braces().tokens();
